@@ -71,6 +71,24 @@ def gand (a : Bool) (b : GoM Bool) : GoM Bool := if a then b else pure false
 /-- `a || b` where evaluating `b` may panic: `b` is evaluated only when `a` does not hold -/
 def gor (a : Bool) (b : GoM Bool) : GoM Bool := if a then pure true else b
 
+/-- `_, err := f(); return err == nil`: the call is only probed for an error VALUE; a panic of the callee goes on unwinding -/
+def isOk {α} (m : GoM α) : GoM Bool :=
+  match m with
+  | .ok _ => .ok true
+  | .error (.err _) => .ok false
+  | .error other => .error other
+
+/-- `strings.Split(s, sep)` for a non-empty separator: the pieces of `s` between the (non-overlapping, leftmost) occurrences
+of `sep`; never empty (`"" ↦ [""]`). `fuel` bounds the scan (the callers pass `s.length + 1`). -/
+def splitOnAux (sep : List UInt8) : Nat → List UInt8 → List UInt8 → List (List UInt8)
+  | 0, cur, _ => [cur.reverse]
+  | _ + 1, cur, [] => [cur.reverse]
+  | fuel + 1, cur, b :: rest =>
+    if sep ≠ [] ∧ sep.isPrefixOf (b :: rest) then cur.reverse :: splitOnAux sep fuel [] ((b :: rest).drop sep.length)
+    else splitOnAux sep fuel (b :: cur) rest
+
+def splitOn (s sep : List UInt8) : List (List UInt8) := splitOnAux sep (s.length + 1) [] s
+
 /-- `p != nil` for a pointer -/
 def notNil {α} (p : Option α) : Bool := p.isSome
 
